@@ -50,14 +50,14 @@ def mk_deleg(n):
         for st2, res in I.call_fn(st, fn, args):
             ctx.ob.paths += 1
             if isinstance(res, Panic):
-                ctx.infeasible(st2, 'no panic inside the domain (total <= u128::MAX)', 'panic:' + res.msg, mv, [inside])
+                ctx.infeasible(st2, 'no panic inside the domain (total <= u128::MAX)', 'del:panic', mv, [inside])
                 continue
             if n == 0:
                 if res.vname != 'Err':
                     ctx.ob.violations.append({'claim': 'empty list must be rejected', 'site': 'n=0', 'model': {}})
                 continue
             if res.vname == 'Err':
-                ctx.infeasible(st2, 'delegation plan fails only for an empty list', 'Err', mv, [inside])
+                ctx.infeasible(st2, 'delegation plan fails only for an empty list', 'del:Err', mv, [inside])
                 continue
             nok += 1
             rem = res.fields[0].fields[0].fields[0]
@@ -65,20 +65,19 @@ def mk_deleg(n):
             ext = []
             ceil, floor = ceil_floor(ext, tot, n)
             A = [inside] + ext
-            ctx.require(st2, rem == 0, 'nothing left over (remainder = 0)', 'remainder', mv, A)
-            ctx.require(st2, sum(dl) == amt, 'plan distributes exactly the amount', 'sum', mv, A)
+            ctx.require(st2, rem == 0, 'nothing left over (remainder = 0)', 'del:remainder', mv, A)
+            ctx.require(st2, sum(dl) == amt, 'plan distributes exactly the amount', 'del:sum', mv, A)
             ctx.require(st2, z3.And(*[z3.Implies(d[i] > ceil, dl[i] == 0) for i in range(n)]),
                         'nothing to a validator above the even share', 'above-avg', mv, A)
             ctx.require(st2, z3.And(*[z3.Implies(dl[i] != 0, d[i] + dl[i] <= ceil) for i in range(n)]),
                         'no validator lifted above ceil(T/n)', 'lifted', mv, A)
-            ctx.require(st2, z3.And(*[dl[i] >= 0 for i in range(n)]), 'amounts are non-negative', 'nonneg', mv, A)
+            ctx.require(st2, z3.And(*[dl[i] >= 0 for i in range(n)]), 'amounts are non-negative', 'del:nonneg', mv, A)
             if nok <= 2:
                 ctx.witness('Ok path n=%d with amount>0' % n, st2, [inside, amt > 0], mv)
         if n > 0:
             ctx.need_witness('some Ok path (n=%d)' % n, nok > 0)
+            ctx.expect_witness('Ok path with amount>0 (n=%d)' % n, 'Ok path n=%d' % n)
         ctx.ob.bounds = {'n': n}
-        for v in ctx.ob.violations:
-            v['kernel'] = 'del'
     return ob
 
 
@@ -103,7 +102,7 @@ def mk_undeleg(n):
         for st2, res in outs:
             ctx.ob.paths += 1
             if isinstance(res, Panic):
-                ctx.infeasible(st2, 'no panic inside the domain', 'panic:' + res.msg, mv, [inside])
+                ctx.infeasible(st2, 'no panic inside the domain', 'und:panic', mv, [inside])
                 continue
             if n == 0:
                 if res.vname != 'Err':
@@ -111,15 +110,15 @@ def mk_undeleg(n):
                 continue
             if res.vname == 'Err':
                 nerr += 1
-                ctx.require(st2, amt > tot, 'fails only when the request exceeds the total', 'Err', mv, [inside])
+                ctx.require(st2, amt > tot, 'fails only when the request exceeds the total', 'und:Err', mv, [inside])
                 continue
             nok += 1
             ul = [x.fields[0] for x in res.fields[0].items]
             ext = []
             ceil, floor = ceil_floor(ext, tot - amt, n)
             A = [inside] + ext
-            ctx.require(st2, amt <= tot, 'a request above the total must fail', 'Ok-but-too-big', mv, A)
-            ctx.require(st2, sum(ul) == amt, 'plan removes exactly the requested amount', 'sum', mv, A)
+            ctx.require(st2, amt <= tot, 'a request above the total must fail', 'und:Ok-but-too-big', mv, A)
+            ctx.require(st2, sum(ul) == amt, 'plan removes exactly the requested amount', 'und:sum', mv, A)
             ctx.require(st2, z3.And(*[z3.And(ul[i] >= 0, ul[i] <= d[i]) for i in range(n)]),
                         'never more from a validator than it holds', 'holding', mv, A)
             ctx.require(st2, z3.And(*[z3.Implies(ul[i] != 0, d[i] - ul[i] >= floor) for i in range(n)]),
@@ -128,10 +127,9 @@ def mk_undeleg(n):
                 ctx.witness('Ok path n=%d with amount>0' % n, st2, [inside, amt > 0], mv)
         if n > 0:
             ctx.need_witness('some Ok path (n=%d)' % n, nok > 0)
+            ctx.expect_witness('Ok path with amount>0 (n=%d)' % n, 'Ok path n=%d' % n)
             ctx.need_witness('some Err path (n=%d)' % n, nerr > 0)
         ctx.ob.bounds = {'n': n, 'while_passes': 3}
-        for v in ctx.ob.violations:
-            v['kernel'] = 'und'
     return ob
 
 
@@ -206,7 +204,7 @@ def replay_any(v, run_scenario, obname=None):
         d.append(int(m['d%d' % i]))
         i += 1
     amt = int(m['amount'])
-    und = v.get('kernel') == 'und'
+    und = (v.get('key') or '').startswith('und')
     scn = {'kind': 'calc_undelegations' if und else 'calc_delegations', 'amount': str(amt), 'validators': [str(x) for x in d]}
     out = run_scenario(scn)
     if 'error' in out:
